@@ -1,3 +1,4 @@
+import os
 """C10(a): instantiation units. Each unit is one translation unit that forces a class template
 (explicit instantiation: every member function) or a member-function template (odr-use in a
 never-called function) to instantiate with a library type satisfying its stated concept."""
@@ -114,4 +115,25 @@ def units():
             '  bool isTerminal(size_t) const { return false; } };\n')
     add('POMCP<UserGen>', ['POMDP/Algorithms/POMCP.hpp'], '#include <tuple>\n' + user + 'template class %sPOMDP::POMCP<UserGen>;' % A)
     add('MCTS<UserGen>', ['MDP/Algorithms/MCTS.hpp'], '#include <tuple>\n' + user + 'template class %sMDP::MCTS<UserGen>;' % A)
+    # Factored/Utils/APSP.hpp declares `buildAdjacencyList(const Action &, const FactorGraph<Factor> &)` (a function template, so the
+    # clang declaration scan of non-template functions does not see it); a documented overload must also LINK. Only while it is declared.
+    try:
+        import re as _re
+        from common import REPO as _REPO
+        _apsp = open(os.path.join(_REPO, 'include/AIToolbox/Factored/Utils/APSP.hpp')).read()
+        if _re.search(r'auto\s+buildAdjacencyList\s*\(\s*const\s+Action\s*&\s*\w*\s*,', _apsp):
+            U.append({'id': 'link:buildAdjacencyList(A,graph)', 'link': True,
+                      'src': '#include <AIToolbox/Factored/Utils/APSP.hpp>\n#include <AIToolbox/Types.hpp>\n'
+                             'int main() { %sFactored::FactorGraph<%sVector> g(2); %sFactored::Action A{2, 2}; return (int)%sFactored::buildAdjacencyList(A, g).size(); }\n' % (A, A, A, A)})
+    except OSError:
+        pass
+    # FlattenedModel<Dist>::convertA: a documented member of a class template (explicit instantiation only instantiates DEFINED members)
+    U.append({'id': 'link:FlattenedModel::convertA', 'link': True,
+              'src': '#include <random>\n#include <AIToolbox/Factored/Bandit/FlattenedModel.hpp>\n'
+                     'int main() { using D = std::bernoulli_distribution; %sFactored::Bandit::Model<D> * m = nullptr; if (!m) return 0; '
+                     '%sFactored::Bandit::FlattenedModel<D> f(*m); return (int)f.convertA(1).size(); }\n' % (A, A)})
+    for cls in ('DynaQ', 'Dyna2'):
+        U.append({'id': 'link:%s::setN' % cls, 'link': True,
+                  'src': '#include <AIToolbox/MDP/Algorithms/%s.hpp>\n#include <AIToolbox/MDP/Model.hpp>\n'
+                         'int main() { %sMDP::Model m(2, 2); %sMDP::%s<%sMDP::Model> d(m); d.setN(3); return (int)d.getN() - 3; }\n' % (cls, A, A, cls, A)})
     return [u for u in U if u]
